@@ -366,6 +366,12 @@ def needX : Complex → Nat
   | .comb _ :: xs => needX xs + 1
   | .compound c :: xs => needX xs + c.length + 2
 
+theorem needX_pos : ∀ (x : Complex), 1 ≤ needX x := by
+  intro x
+  induction x with
+  | nil => simp [needX]
+  | cons cp xs ih => cases cp <;> simp only [needX] <;> omega
+
 def tailText (tail : Complex) (rest : List Char) : List Char :=
   match tail with
   | [] => rest
@@ -444,7 +450,7 @@ theorem pComplexRest_app : ∀ (x : Complex) (rest : List Char), wfX x → StopX
     cases cp with
     | comb cb =>
       obtain ⟨f, rfl⟩ : ∃ g, f = g + 1 := ⟨f - 1, by simp only [needX] at hf; omega⟩
-      obtain ⟨f, rfl⟩ : ∃ g, f = g + 1 := ⟨f - 1, by simp only [needX] at hf; cases tail <;> simp only [needX] at hf <;> omega⟩
+      obtain ⟨f, rfl⟩ : ∃ g, f = g + 1 := ⟨f - 1, by simp only [needX] at hf; have := needX_pos tail; omega⟩
       have hrec := ih rest htail hr (f + 1) (by simp only [needX] at hf; omega)
       rw [← pComplexRest_tailText] at hrec
       unfold pComplexRest
@@ -452,11 +458,11 @@ theorem pComplexRest_app : ∀ (x : Complex) (rest : List Char), wfX x → StopX
     | compound c =>
       have hc : wfC c := hx c (by simp)
       obtain ⟨f, rfl⟩ : ∃ g, f = g + 1 := ⟨f - 1, by simp only [needX] at hf; omega⟩
-      obtain ⟨f, rfl⟩ : ∃ g, f = g + 1 := ⟨f - 1, by simp only [needX] at hf; cases tail <;> simp only [needX] at hf <;> omega⟩
+      obtain ⟨f, rfl⟩ : ∃ g, f = g + 1 := ⟨f - 1, by simp only [needX] at hf; have := needX_pos tail; omega⟩
       have hrec := ih rest htail hr (f + 1) (by simp only [needX] at hf; omega)
       rw [← pComplexRest_tailText] at hrec
       have hpc := pCompound_app c (tailText tail rest) hc (StopC_tailText tail rest hr) (f + 1)
-        (by simp only [needX] at hf; cases tail <;> simp only [needX] at hf <;> omega)
+        (by simp only [needX] at hf; have := needX_pos tail; omega)
       obtain ⟨h, t, e, h1, h2, h3, h4, h5⟩ := renderC_head c hc
       simp only [renderComponent]
       unfold pComplexRest
@@ -464,13 +470,156 @@ theorem pComplexRest_app : ∀ (x : Complex) (rest : List Char), wfX x → StopX
       simp only [List.cons_append] at hpc ⊢
       simp only [skipWs, h1, Bool.false_eq_true, if_false]
       split
-      · rename_i heq; injection heq with h' _; exact absurd h' h2
-      · rename_i heq; injection heq with h' _; exact absurd h' h3
-      · rename_i heq; injection heq with h' _; exact absurd h' h4
-      · rename_i c' r hn1 hn2 hn3 heq
-        injection heq with h' h''
-        subst h' h''
-        simp only [h5, if_true, hpc, hrec, Option.map_some]
-      · rename_i heq; cases heq
+      · simp only [hpc, hrec, Option.map_some]
+      · rename_i hneg; exact absurd h5 hneg
+
+
+def needL : SelList → Nat
+  | [] => 1
+  | x :: l => needX x + needL l + 1
+
+def wfL (l : SelList) : Prop := l ≠ [] ∧ ∀ x ∈ l, wfX x ∧ x ≠ []
+
+def StopL (rest : List Char) : Prop := rest = [] ∨ ∃ r, rest = ')' :: r
+
+theorem pList_space (f : Nat) (cs : List Char) : pList (f + 2) (' ' :: cs) = pList (f + 2) cs := by
+  unfold pList
+  rw [pComplexRest_space]
+
+theorem pList_app : ∀ (l : SelList) (rest : List Char), wfL l → StopL rest → ∀ f, needL l ≤ f →
+    pList f (renderList l ++ rest) = some (l, rest) := by
+  intro l
+  induction l with
+  | nil => intro rest h; exact absurd rfl h.1
+  | cons x tl ih =>
+    intro rest hl hr f hf
+    have hx := hl.2 x (by simp)
+    have hnx := needX_pos x
+    obtain ⟨f, rfl⟩ : ∃ g, f = g + 1 := ⟨f - 1, by simp only [needL] at hf; omega⟩
+    cases tl with
+    | nil =>
+      simp only [renderList]
+      have hsx : StopX rest := by
+        rcases hr with h | ⟨r, h⟩
+        · exact Or.inl h
+        · exact Or.inr ⟨r, Or.inr h⟩
+      have hp := pComplexRest_app x rest hx.1 hsx f (by simp only [needL] at hf; omega)
+      unfold pList
+      rw [hp]
+      have hne : x.isEmpty = false := by cases x <;> simp_all
+      simp only [hne, Bool.false_eq_true, if_false]
+      rcases hr with h | ⟨r, h⟩ <;> subst h <;> simp [skipWs, isWs]
+    | cons y ys =>
+      have htl : wfL (y :: ys) := ⟨by simp, fun z hz => hl.2 z (List.mem_cons_of_mem _ hz)⟩
+      have hny := needX_pos y
+      simp only [renderList, List.append_assoc, List.cons_append]
+      have hp := pComplexRest_app x (',' :: ' ' :: (renderList (y :: ys) ++ rest)) hx.1 (Or.inr ⟨_, Or.inl rfl⟩) f
+        (by simp only [needL] at hf; omega)
+      obtain ⟨f, rfl⟩ : ∃ g, f = g + 2 := ⟨f - 2, by simp only [needL] at hf; omega⟩
+      have hrec := ih rest htl hr (f + 2) (by simp only [needL] at hf ⊢; omega)
+      unfold pList
+      rw [hp]
+      have hne : x.isEmpty = false := by cases x <;> simp_all
+      simp only [hne, Bool.false_eq_true, if_false]
+      simp only [skipWs, isWs]
+      simp only [show ((',' == ' ' || ',' == '\n' || ',' == '\t' || ',' == '\r') = true) = False by decide, if_false]
+      rw [pList_space, hrec]
+      rfl
+
+/-! ### the fuel `parseSelList` gives is enough -/
+
+theorem renderS_len (s : Simple) (hs : wfS s) : 1 ≤ (renderS s).length := by
+  cases s with
+  | univ => simp [renderS]
+  | type n => obtain ⟨c, cs, e, _⟩ := validName_head hs; subst e; simp [renderS]
+  | cls n => simp [renderS]
+  | id n => simp [renderS]
+  | placeholder n => simp [renderS]
+  | pclass n => simp [renderS]
+  | pelem n => simp [renderS]
+  | attr n v => cases v <;> simp [renderS]
+  | parent x => exact hs.elim
+  | sel k a => exact hs.elim
+
+theorem renderC_len : ∀ (c : Compound), (∀ s ∈ c, wfS s) → c.length ≤ (renderC c).length := by
+  intro c
+  induction c with
+  | nil => intro _; simp
+  | cons s ss ih =>
+    intro h
+    have := renderS_len s (h s (by simp))
+    have := ih (fun t ht => h t (by simp [ht]))
+    simp only [renderC, List.length_cons, List.length_append]; omega
+
+theorem wfC_all {c : Compound} (h : wfC c) : (∀ s ∈ c, wfS s) ∧ 1 ≤ c.length := by
+  cases c with
+  | nil => exact h.elim
+  | cons s ss =>
+    refine ⟨?_, by simp⟩
+    intro t ht
+    rcases List.mem_cons.1 ht with e | e
+    · subst e; exact h.1
+    · exact (h.2 t e).1
+
+theorem needX_le : ∀ (x : Complex), wfX x → needX x ≤ 3 * (renderComplex x).length + 1 := by
+  intro x
+  induction x with
+  | nil => intro _; simp [needX]
+  | cons cp tail ih =>
+    intro hx
+    have htail := ih (fun c hc => hx c (List.mem_cons_of_mem _ hc))
+    have hlen : (renderComplex (cp :: tail)).length ≥ (renderComponent cp).length + (renderComplex tail).length := by
+      cases tail with
+      | nil => simp [renderComplex]
+      | cons d xs => simp only [renderComplex, List.length_append, List.length_cons]; omega
+    cases cp with
+    | comb cb =>
+      have : (renderComponent (.comb cb)).length = 1 := by cases cb <;> rfl
+      simp only [needX]; omega
+    | compound c =>
+      obtain ⟨h1, h2⟩ := wfC_all (hx c (by simp))
+      have := renderC_len c h1
+      simp only [needX, renderComponent] at hlen ⊢; omega
+
+theorem renderComplex_pos (x : Complex) (hx : wfX x) (hne : x ≠ []) : 1 ≤ (renderComplex x).length := by
+  cases x with
+  | nil => exact absurd rfl hne
+  | cons cp tail =>
+    have hlen : (renderComplex (cp :: tail)).length ≥ (renderComponent cp).length := by
+      cases tail with
+      | nil => simp [renderComplex]
+      | cons d xs => simp only [renderComplex, List.length_append, List.length_cons]; omega
+    cases cp with
+    | comb cb =>
+      have : (renderComponent (.comb cb)).length = 1 := by cases cb <;> rfl
+      omega
+    | compound c =>
+      obtain ⟨h1, h2⟩ := wfC_all (hx c (by simp))
+      have := renderC_len c h1
+      simp only [renderComponent] at hlen; omega
+
+theorem needL_le : ∀ (l : SelList), (∀ x ∈ l, wfX x ∧ x ≠ []) → needL l ≤ 8 * (renderList l).length + 1 := by
+  intro l
+  induction l with
+  | nil => intro _; simp [needL]
+  | cons x tl ih =>
+    intro h
+    have htl := ih (fun z hz => h z (List.mem_cons_of_mem _ hz))
+    have hx := needX_le x (h x (by simp)).1
+    have hpos := renderComplex_pos x (h x (by simp)).1 (h x (by simp)).2
+    have hlen : (renderList (x :: tl)).length ≥ (renderComplex x).length + (renderList tl).length := by
+      cases tl with
+      | nil => simp [renderList]
+      | cons y ys => simp only [renderList, List.length_append, List.length_cons]; omega
+    simp only [needL]; omega
+
+/-- well-formed selector lists of the round-trip theorem: non-empty list of non-empty complexes whose
+    compounds are non-empty, start with any simple selector and continue with non-type ones, names
+    are identifiers; no selector pseudo, no `&`, attribute values bare identifiers -/
+theorem parse_render (l : SelList) (hl : wfL l) : parseSelList (renderList l) = some l := by
+  have h := pList_app l [] hl (Or.inl rfl) (8 * (renderList l).length + 16)
+    (by have := needL_le l hl.2; omega)
+  simp only [List.append_nil] at h
+  simp [parseSelList, h, skipWs]
 
 end Grass.Selector
